@@ -286,7 +286,8 @@ impl Cqueue {
             }};
         }
 
-        let deadline = timeout.map(|dur| Instant::now() + dur);
+        // a deadline that does not fit the clock never comes
+        let deadline = timeout.and_then(|dur| Instant::now().checked_add(dur));
         let mut remaining = timeout;
         loop {
             // read the count before the queue: when it is zero every Done event
